@@ -44,7 +44,6 @@ Example C19_pack_nonvacuous :
   exists ops, pack_bitlist vs os 32 = Some ops /\ length ops = 13%nat
     /\ pack_result 32 (fun i => if Nat.eqb i 0 then 5 else 16) ops = 4294771969.
 Proof. eexists. split; [reflexivity|]. split; vm_compute; reflexivity. Qed.
-Print Assumptions C19_pack_nonvacuous.
 
 (* ---- (a) canonicalize_affine.py (generated model Gen/CanonAffine.v) --------------------------- *)
 From Snax Require Import Model.PyLib Model.XdslAffine Gen.CanonAffine Proofs.C19CanonProofs.
@@ -64,18 +63,24 @@ Theorem C19_canon_map_eval :
 Proof. exact canon_map_eval. Qed.
 Print Assumptions C19_canon_map_eval.
 
+(* idempotence: the result of a terminating run is a fixed point of canonicalize_expr (Python has no fuel:
+   "canonicalize_expr(r) terminates with r" = some recursion budget f0 suffices) *)
+Theorem C19_canon_idempotent :
+  forall fuel e r, canonicalize_expr fuel e = Some r ->
+    exists f0, (f0 <= fuel)%nat /\ canonicalize_expr f0 r = Some r.
+Proof. exact canon_idempotent. Qed.
+Print Assumptions C19_canon_idempotent.
+
 (* non-vacuity: reassociation + reordering + distribution really happen *)
 Example C19_canon_nonvacuous :
   let e := EBin KMul (EBin KAdd (EBin KAdd (EDim 1) (ECst 3)) (EDim 0)) (ECst 4) in
   exists r, canonicalize_expr 50 e = Some r /\ r <> e.
 Proof. eexists. split; [vm_compute; reflexivity | discriminate]. Qed.
-Print Assumptions C19_canon_nonvacuous.
 
 (* known finding F22 (class canon_sum_folds_to_leaf): the assert after reassociation fails *)
 Example C19_canon_assert_refuted :
   canonicalize_expr 50 (EBin KAdd (EBin KAdd (EDim 0) (ECst 2)) (ECst (-2))) = None.
 Proof. vm_compute. reflexivity. Qed.
-Print Assumptions C19_canon_assert_refuted.
 
 (* ---- (b) StridePattern.canonicalize (generated model Gen/StrideCanon.v) ------------------------ *)
 From Snax Require Import Model.C19Stride Gen.StrideCanon Proofs.C19StrideProofs.
@@ -97,14 +102,12 @@ Example C19_stride_nonvacuous :
   let p := SP [4; 1; 2; 0; 3] [8; 5; 32; 7; 0] [1] in
   Forall (fun b => 0 <= b) (sp_ub p) /\ StridePattern_canonicalize p = Some (SP [8; 0] [8; 0] [1]).
 Proof. split; [repeat constructor; lia | vm_compute; reflexivity]. Qed.
-Print Assumptions C19_stride_nonvacuous.
 
 (* the hypothesis is needed: with two negative bounds the merged bound is positive *)
 Example C19_stride_negative_bounds_refuted :
   let p := SP [-2; -3] [1; -2] [1] in
   exists p', StridePattern_canonicalize p = Some p' /\ taddrs p = [] /\ taddrs p' <> [].
 Proof. eexists. split; [vm_compute; reflexivity|]. split; [reflexivity | vm_compute; discriminate]. Qed.
-Print Assumptions C19_stride_negative_bounds_refuted.
 
 (* ---- (d) AffineTransform (hand model Model/C19Transform.v) ------------------------------------- *)
 From Snax Require Import Model.C19Transform Proofs.C19TransformProofs.
@@ -147,7 +150,6 @@ Example C19_roundtrip_nonvacuous :
   forallb is_affine (results m) = true /\
   from_affine_map m = Some (AT [[4; 1]; [0; 1]] [12; 0] 2).
 Proof. split; vm_compute; reflexivity. Qed.
-Print Assumptions C19_roundtrip_nonvacuous.
 
 (* the `is_affine` hypothesis is needed: from_affine_map accepts the (raw) product of two dimensions
    and returns a matrix that does not evaluate like the map *)
@@ -155,4 +157,10 @@ Example C19_from_map_nonlinear_refuted :
   let m := AMap 2 0 [EBin KMul (EDim 0) (EDim 1)] in
   exists t, from_affine_map m = Some t /\ at_eval t [2; 3] <> Some (map_eval (env [2; 3]) no_sym m).
 Proof. eexists. split; [vm_compute; reflexivity | vm_compute; discriminate]. Qed.
-Print Assumptions C19_from_map_nonlinear_refuted.
+
+(* (b) continued: idempotence of StridePattern.canonicalize on the generated model *)
+Theorem C19_stride_canon_idempotent :
+  forall p p', Forall (fun b => 0 <= b) (sp_ub p) ->
+    StridePattern_canonicalize p = Some p' -> StridePattern_canonicalize p' = Some p'.
+Proof. exact stride_canon_idempotent. Qed.
+Print Assumptions C19_stride_canon_idempotent.
